@@ -94,7 +94,8 @@ def _enum_mttkrp(tier):
         shapes += [(4, 3, 2), (2, 3, 2, 4), (3, 1, 2, 2), (1, 1, 2)]
     for sh in shapes:
         N = len(sh)
-        for hk in ("tensor", "sptensor", "sptensor-thin", "ktensor", "ttensor-dense", "ttensor-sparse", "sumtensor"):
+        for hk in ("tensor", "sptensor", "sptensor-thin", "sptensor-one", "sptensor-empty", "ktensor", "ttensor-dense",
+                   "ttensor-sparse", "sumtensor"):
             h = cm.fixed_holder(hk, sh, salt=N + 2)
             for n in range(N):
                 for ukind, w in (("list", [1.0, 1.0]), ("ktensor", [1.0, 1.0]), ("ktensor", [2.0, -3.0])):
